@@ -32,7 +32,7 @@ META = {
 }
 GROUP = "exec"
 REQ = ("From RV Require Import Prelude.\nFrom Planner Require Import Graph.\n"
-       "From Exec Require Import ExecModel ModelTestOps.\nOpen Scope N_scope.")
+       "From Exec Require Import ExecModel ModelTestOps FanModel.\nOpen Scope N_scope.")
 REQ_R = ("From RV Require Import Prelude.\nFrom Planner Require Import Graph.\n"
          "From Exec Require Import ExecModel ModelTestOps RealOpsModel.\nOpen Scope N_scope.\n"
          "Notation case := rcase (only parsing).")
@@ -77,7 +77,9 @@ def one_pass(ctx, name, cases, agree, prop_ok, show, shard, fn_name, classify=No
 def main(ctx):
     ctx.rule = ("seeded random DAGs (1..14 test operators, arity 0..3, 1..2 outputs, optional/repeated inputs, in-place positions incl. "
                 "out-of-range ones, commutative / buffer-overwriting flags) over 1..4 inputs and 0..2 constants, tensors of 1..40 i32 (>=32 "
-                "elements go through the BufferPool); 5..8 strategies per case; plus sticky-refcount graphs (254..300 uses) and the corpus; "
+                "elements go through the BufferPool); 5..8 strategies per case; plus the fan-out family (`F` lines, repeat-encoded terms: a run "
+                "input or an intermediate used 255/256/257/300 times by a chain of consumers, some consuming it several times, then a later "
+                "in-place capable consumer; 4 per quick run, 10 per thorough run, 4 strategies each) and the corpus; "
                 "non-trivial = the plan has at least one operator. Real-operator family: seeded model shapes (m,k,n0,n1 <= 6), flags for "
                 "Gemm/MatMul per site, Loop (trip 0..3, optional scan output, optional nested If), Conv path; 9 strategies per case")
     ctx.trusted += ["real-operator family: the naive reference (plain i64 loops for MatMul/Gemm/Conv/If/Loop) and the hand-written ONNX encoder live in the harness",
@@ -86,12 +88,12 @@ def main(ctx):
     ctx.assumptions += ["requested outputs are distinct and planned operators write value nodes (guaranteed by the planner, C03)"]
     ctx.audit(GROUP, "planner")
     failed = ctx.prove(GROUP, "Props_C02", THEOREMS) if THEOREMS else []
-    ok, out = ctx.make(GROUP, ["RealOpsModel.vo"])
+    ok, out = ctx.make(GROUP, ["RealOpsModel.vo", "FanModel.vo"])
     if not ok:
         raise vf.CheckerBroken("RealOpsModel.v does not compile: " + out[-500:])
     bindir = ctx.harness(GROUP, profile="release", bins=["c02", "c02r"])
     replay = ctx.replay_inputs()
-    flat_replay = [l for l in replay if not l.startswith("R ")] if replay else None
+    flat_replay = [l for l in replay if not l.startswith("R ")] if replay else None  # incl. fan-out lines `F ...`
     real_replay = [l for l in replay if l.startswith("R ")] if replay else None
     # family 1: table-driven test operators on the crate-private Graph (hook)
     if replay is None or flat_replay:
